@@ -2208,6 +2208,8 @@ func main() {
 	}
 	// the stateful engine (storage state machine) writes <out>/TransStorage.lean
 	writeStateful(*out)
+	// the object engine (slab-level restructuring of the maps) writes <out>/TransMapSlabs.lean
+	writeObjMaps(*out)
 	path := filepath.Join(*out, "Trans.lean")
 	content := b.String()
 	if old, err := os.ReadFile(path); err == nil && string(old) == content {
